@@ -108,7 +108,7 @@ def run(ctx, rep):
         segs = emit_value(I, obj, st)
         exp = expected(I, f, prod, P)
         if I.tops: rep.undecided('production', key_, I.tops, f.bodies[d]['sp']); continue
-        ok, why = segs_equal(segs, exp)
+        ok, why = segs_equal(segs, exp, [c for c, _ in I.st.facts])
         n += 1
         rep.ob('production', key_, ok, '%s: %s' % (key_, why), sp=f.bodies[d]['sp'], detail={'emitted': show_segs(segs), 'specified': show_segs(exp)})
         if key_ in SPEC.GUARDS:
